@@ -67,3 +67,68 @@ PLANS["C02"] = dict(
         validate=dict(module="Trace_Verifier", cfg=trace_cfg(["verdict", "outcome", "actions", "results", "calls"])),
     )],
 )
+
+# ------------------------------------------------------------------ C01
+PLANS["C01"] = dict(
+    level_text="TLC checks on the staged model of Verify/VerifyBlob that success implies a parsed, cryptographically valid envelope with the "
+               "Notary payload type whose target matches the presented descriptor (digest, size, media type rule) and carries every required "
+               "metadata pair, for every enforcement map under benign and hostile surroundings; every abstract case is replayed against the "
+               "real verifier with real JWS/COSE envelopes (fresh, bit-flipped, payload-swapped, re-assembled, truncated) and validated by TLC.",
+    level_note="Trusted: Go crypto, notation-core-go ParseEnvelope/Verify (the byte-level abstraction function), TLC. Byte-level inputs are "
+               "sampled (seeded mutations), the decision on top of the facts is exhaustive.",
+    rule="cases = InputSpace of MC_Verifier_C01 (F1: 24 maps x benign/hostile x integrity facts x descriptor relations x representative metadata; "
+         "F2: all 81 required/signed metadata relations); non-trivial = some C01 antecedent is false (tampered, other artifact, missing metadata)",
+    exhaustive=True,
+    assumptions=["notation-core-go decides 'signature valid over payload and signed attributes'", "ECDSA P-256 chains; other key types are covered by C07"],
+    phases=[dict(
+        name="facts",
+        gen=dict(module="MC_Verifier_C01", cfg=mc_cfg(["Inv_C01", "Inv_Exact", "Inv_Consistent", "Inv_Emit"], extra=["PROPERTY Prop_ErrSticky"]), select=take_all),
+        drive=dict(driver="verifier"),
+        validate=dict(module="Trace_Verifier", cfg=trace_cfg(["verdict", "outcome"])),
+    )],
+)
+
+# ------------------------------------------------------------------ C03
+def c03_consts(tier, seed):
+    if tier == "thorough":
+        return ['Contents = {"missing", "unrelated", "root", "inter", "leaf"}', "MaxList = 3", 'Others = {"", "W2", "O1"}']
+    return ['Contents = {"missing", "unrelated", "root"}', "MaxList = 2", 'Others = {"", "W2"}']
+
+PLANS["C03"] = dict(
+    level_text="TLC checks the store-loading loop (type filter, de-duplication, error propagation) against the declarative statement for every "
+               "placement of root/intermediate/leaf/unrelated certificates into four named stores of three types, every store list, a second "
+               "statement and both schemes, plus a frame lemma (stores that are not listed-and-wanted never matter); every placement is replayed "
+               "against the real verifier with real chains, both envelope formats.",
+    level_note="Trusted: notation-core-go VerifyAuthenticity (certificate equality), Go crypto, TLC. The sweep uses a logging in-memory trust store; "
+               "the real file-system trust store is exercised under C13.",
+    rule="cases = all (scheme, store contents, store list, other-statement store, level) of MC_Verifier_C03; non-trivial = authenticity must fail "
+         "or a chain certificate sits in a store that must not confer trust",
+    exhaustive=True,
+    phases=[dict(
+        name="placements",
+        gen=dict(module="MC_Verifier_C03",
+                 cfg=lambda tier, seed: mc_cfg(["Inv_C03", "Inv_C03_Frame", "Inv_Exact", "Inv_Emit"], consts=c03_consts(tier, seed)),
+                 select=take_all),
+        drive=dict(driver="verifier"),
+        validate=dict(module="Trace_Verifier", cfg=trace_cfg(["verdict", "outcome", "authenticity", "results", "actions"])),
+    )],
+)
+
+# ------------------------------------------------------------------ C05
+PLANS["C05"] = dict(
+    level_text="TLC checks the accumulator loop of the chain aggregation (modelled as in the code, root to leaf) against the declarative statement "
+               "for all 340 result vectors over chains of length 1..4, and that method annotations never change the class; every vector x "
+               "annotation x interface x scheme x action is replayed against the real verifier and the reported class, the named certificate and "
+               "the shape of the validator call (complete chain, signing time only for signing-authority) are validated by TLC.",
+    level_note="Trusted: TLC, Go crypto. The validator/deprecated client are mocks of the public interfaces returning the vector.",
+    rule="cases = RevSpace x 3 revocation actions of MC_Verifier_C05; non-trivial = some certificate is not OK/non-revokable or the validator errs",
+    exhaustive=True,
+    phases=[dict(
+        name="vectors",
+        gen=dict(module="MC_Verifier_C05",
+                 cfg=lambda tier, seed: mc_cfg(["Inv_C05_Loop", "Inv_C05", "Inv_Exact", "Inv_Emit"], consts=["MaxChain = 4"]),
+                 select=take_all),
+        drive=dict(driver="verifier"),
+        validate=dict(module="Trace_Verifier", cfg=trace_cfg(["verdict", "outcome", "results", "actions", "calls", "revshape", "revclass"])),
+    )],
+)
